@@ -6,7 +6,7 @@
    (update_subtree) OpsRefineAll.v. *)
 From Coq Require Import List Bool Arith.
 From GolemV Require Import Graph.Heap Graph.Ops Graph.OpsSpec Graph.OpsBase Graph.OpsDfs Graph.OpsProofs
-  Graph.OpsProofs2 Graph.OpsChar Graph.OpsAcyclic Graph.OpsRefine Graph.OpsOracle Graph.OpsSink Graph.OpsRefine2 Graph.OpsCleanup Graph.OpsRefine3 Graph.OpsRefineAll.
+  Graph.OpsProofs2 Graph.OpsChar Graph.OpsAcyclic Graph.OpsRefine Graph.OpsOracle Graph.OpsSink Graph.OpsRefine2 Graph.OpsCleanup Graph.OpsRefine3 Graph.OpsRefineAll Graph.OpsFrame.
 Import ListNotations.
 
 (* ---------------------------------------------------------------- the oracle decides the stated notions *)
@@ -215,6 +215,24 @@ Print Assumptions C04_model_wf_acyclic_clauses.
 Theorem C04_model_never_raises_in_domain : forall s o e, in_domain s o = true -> run_op s o <> Raise e.
 Proof. exact model_never_raises_in_domain. Qed.
 Print Assumptions C04_model_never_raises_in_domain.
+
+(* modelling fact made explicit: every node owns its parent container.  A node built from another
+   node's parent list (OptNode(.., nodes_from=a.nodes_from), b.nodes_from = a.nodes_from) holds a copy:
+   connecting / disconnecting a afterwards leaves the new node's parents unchanged, and in general
+   these operations change no object but the child *)
+Theorem C04_containers_not_shared : forall h g a u l p cl h' g',
+  a < length h ->
+  (connect_nodes (h ++ [mkNode u l (pars h a) true]) g p a = Ok (h', g') \/
+   disconnect_nodes (h ++ [mkNode u l (pars h a) true]) g p a cl = Ok (h', g')) ->
+  pars h' (length h) = pars h a.
+Proof. exact containers_not_shared. Qed.
+Print Assumptions C04_containers_not_shared.
+
+Theorem C04_connect_disconnect_touch_only_the_child : forall h g p c cl h' g',
+  (connect_nodes h g p c = Ok (h', g') \/ disconnect_nodes h g p c cl = Ok (h', g')) ->
+  forall r, r <> c -> get h' r = get h r.
+Proof. intros h g p c cl h' g' [E|E]; [eapply connect_frame|eapply disconnect_frame]; eauto. Qed.
+Print Assumptions C04_connect_disconnect_touch_only_the_child.
 
 (* ---------------------------------------------------------------- T1.5  GraphDelegate *)
 Theorem C04_delegate_forwards : forall s o, gd_run_op s o = run_op s o.
